@@ -6,7 +6,11 @@ From L3 Require Import Ber BerFixed Utf8 Frame.
 Import ListNotations.
 Open Scope N_scope.
 
-Record dfix := { fix2 : bool; fix4 : bool; pf : pfix; fix30 : bool }.   (* fix30: a message id outside 0 .. 2^31-1 is a decoding error, not folded into the range *)
+Record dfix := { fix2 : bool; fix4 : bool; pf : pfix; fix30 : bool; fix38 : bool }.
+(* fix30: a message id outside 0 .. 2^31-1 is a decoding error, not folded into the range
+   fix38: the envelope is a SEQUENCE of class universal, its message id has content octets, and nothing precedes the message id *)
+Definition idchk (f38 : bool) (v : list byte) : bool := if f38 then id_ok v else id_ok0 v.
+Definition is_nil {A} (l : list A) : bool := match l with [] => true | _ => false end.
 Inductive cres (A : Type) := COk (a : A) | CBad | CPanic.       (* CBad = decoding_error *)
 Arguments COk {A}. Arguments CBad {A}. Arguments CPanic {A}.
 Definition oops {A} (b : bool) : cres A := if b then CBad else CPanic.
@@ -56,7 +60,8 @@ Definition envelope' (fx : dfix) (tags : list tree) : cres (N * tree * list ctrl
       | COk ctrls =>
         match before with
         | [] => oops (fix2 fx)
-        | P Universal id v :: _ => if id =? 2 then (if fix30 fx && negb (id_ok v) then CBad else COk (as_i32 (parse_uint v), protoop, ctrls)) else oops (fix2 fx)
+        | P Universal id v :: more => if id =? 2 then (if fix30 fx && negb (idchk (fix38 fx) v) then CBad else
+                                                        if fix38 fx && negb (is_nil more) then CBad else COk (as_i32 (parse_uint v), protoop, ctrls)) else oops (fix2 fx)
         | _ => oops (fix2 fx) end
       end in
     if is_ctx 0 then
@@ -77,8 +82,8 @@ Definition decode_inner' (fx : dfix) (buf : list byte) : dres :=
     | PErr | PFuel => DErr
     | POk (t, rest) =>
       match t with
-      | C _ id tags =>
-        if id =? 16 then
+      | C c id tags =>
+        if (id =? 16) && (negb (fix38 fx) || class_eqb c Universal) then
           match envelope' fx tags with
           | CPanic => DPanic | CBad => DErr
           | COk (mid, op, ctrls) => DFrame mid op ctrls rest end
@@ -87,7 +92,7 @@ Definition decode_inner' (fx : dfix) (buf : list byte) : dres :=
     end
   end.
 
-Definition as_is_d := {| fix2 := false; fix4 := false; pf := as_is_p; fix30 := false |}.
+Definition as_is_d := {| fix2 := false; fix4 := false; pf := as_is_p; fix30 := false; fix38 := false |}.
 (* the probes again, on the switchable definitions with every switch off *)
 Lemma as_is_panics : decode_inner' as_is_d (b [48; 0]) = DPanic /\ decode_inner' as_is_d (b [48; 3; 2; 1; 1]) = DPanic /\
   decode_inner' as_is_d (b [48; 5; 4; 1; 1; 97; 0]) = DPanic /\
@@ -110,7 +115,7 @@ Proof. intros H2 H4. unfold envelope', oops. rewrite H2, H4.
 Theorem c11_decode_no_panic fx buf : fix2 fx = true -> fix4 fx = true -> decode_inner' fx buf <> DPanic.
 Proof. intros H2 H4. unfold decode_inner'. destruct buf as [|x xs]; [discriminate|].
   destruct (parse_tag' (pf fx) 0 (S (length (x :: xs))) (x :: xs)) as [[t rest]| | |]; try discriminate.
-  destruct t as [|c id tags]; [discriminate|]. destruct (id =? 16); [|discriminate].
+  destruct t as [|c id tags]; [discriminate|]. destruct ((id =? 16) && _); [|discriminate].
   pose proof (envelope_no_panic fx tags H2 H4). destruct (envelope' fx tags) as [[[mid op] cs]| |]; congruence. Qed.
 (* ... and once the bytes announced by the outer length are present the frame is delivered or rejected *)
 Theorem c11_decode_no_wedge fx b0 i1 len i2 : fix3 (pf fx) = true ->
@@ -118,7 +123,7 @@ Theorem c11_decode_no_wedge fx b0 i1 len i2 : fix3 (pf fx) = true ->
 Proof. intros H3 Hl Hle. unfold decode_inner'.
   pose proof (c11_no_wedge (pf fx) 0 (length (b0 :: i1)) b0 i1 len i2 H3 Hl Hle) as Hn.
   destruct (parse_tag' (pf fx) 0 (S (length (b0 :: i1))) (b0 :: i1)) as [[t rest]| | |]; try discriminate; try congruence.
-  destruct t as [|c id tags]; [discriminate|]. destruct (id =? 16); [|discriminate]. destruct (envelope' fx tags) as [[[mid op] cs]| |]; discriminate. Qed.
+  destruct t as [|c id tags]; [discriminate|]. destruct ((id =? 16) && _); [|discriminate]. destruct (envelope' fx tags) as [[[mid op] cs]| |]; discriminate. Qed.
 Print Assumptions c11_decode_no_panic.
 
 (* ---------- the repaired decoder agrees with the decoder as it was wherever that one delivered a frame ---------- *)
@@ -129,42 +134,122 @@ Lemma parse_controls'_agrees f4 ts cs : parse_controls ts = Ok cs -> parse_contr
 Proof. revert cs. induction ts as [|t ts IH]; intros cs; cbn; [intros H; injection H as <-; reflexivity|].
   destruct (parse_control t) as [c|] eqn:E; [|discriminate]. rewrite (parse_control'_agrees f4 t c E).
   destruct (parse_controls ts) as [cs'|]; [|discriminate]. intros H; injection H as <-. now rewrite (IH cs' eq_refl). Qed.
-Lemma envelope'_agrees fx tags v : fix30 fx = false -> envelope tags = Ok (Some v) -> envelope' fx tags = COk v.
-Proof. intros F30. unfold envelope, envelope', oops. rewrite F30. cbn [andb].
+Lemma envelope'_agrees fx tags v : fix30 fx = false -> fix38 fx = false -> envelope tags = Ok (Some v) -> envelope' fx tags = COk v.
+Proof. intros F30 F38. unfold envelope, envelope', oops. rewrite F30, F38. cbn [andb].
   repeat match goal with
   | |- context [parse_controls ?cs] => let E := fresh "E" in destruct (parse_controls cs) eqn:E; [rewrite (parse_controls'_agrees (fix4 fx) _ _ E)|]
   | |- context [match ?x with _ => _ end] => destruct x end; intros H; try discriminate H; injection H as <-; reflexivity. Qed.
 
-Definition repaired_d (m : nat) : dfix := {| fix2 := true; fix4 := true; pf := lim true m; fix30 := true |}.
+Definition repaired_d (m : nat) : dfix := {| fix2 := true; fix4 := true; pf := lim true m; fix30 := true; fix38 := true |}.
+Definition repaired_d_but38 (m : nat) : dfix := {| fix2 := true; fix4 := true; pf := lim true m; fix30 := true; fix38 := false |}.
 
 (* the repairs of F2-F6 alone (message ids still folded mod 2^32, as the decoder as found does) *)
-Definition repaired_d_but30 (m : nat) : dfix := {| fix2 := true; fix4 := true; pf := lim true m; fix30 := false |}.
+Definition repaired_d_but30 (m : nat) : dfix := {| fix2 := true; fix4 := true; pf := lim true m; fix30 := false; fix38 := false |}.
 Theorem decode_agrees m buf mid op cs rest : decode_inner buf = DFrame mid op cs rest ->
   (forall t r, parse_tag (S (length buf)) buf = POk (t, r) -> (tdepth t <= S m)%nat) ->
   decode_inner' (repaired_d_but30 m) buf = DFrame mid op cs rest.
 Proof. unfold decode_inner, decode_inner'. destruct buf as [|x xs]; [discriminate|]. intros H Hd.
   destruct (parse_tag (S (length (x :: xs))) (x :: xs)) as [[t r]| | |] eqn:E; try discriminate.
   cbn [pf repaired_d_but30]. rewrite (c11_repairs_reject_nothing_valid m _ _ t r E (Hd t r eq_refl)).
-  destruct t as [|c id tags]; [discriminate|]. destruct (id =? 16); [|discriminate].
+  destruct t as [|c id tags]; [discriminate|]. cbn [fix38 repaired_d_but30 negb orb]. rewrite andb_true_r. destruct (id =? 16); [|discriminate].
   destruct (envelope tags) as [[[[mid' op'] cs']|]|] eqn:Ee; try discriminate.
-  now rewrite (envelope'_agrees (repaired_d_but30 m) _ _ eq_refl Ee). Qed.
+  now rewrite (envelope'_agrees (repaired_d_but30 m) _ _ eq_refl eq_refl Ee). Qed.
 (* F30: the decoder never delivers a frame whose message id is outside 0 .. 2^31-1 (as found, 2^32+1 was delivered as 1) *)
 Theorem c01_decoded_id_in_range fx buf mid op cs rest : fix30 fx = true -> decode_inner' fx buf = DFrame mid op cs rest -> mid <= 2147483647.
 Proof.
   intros F. unfold decode_inner'. destruct buf as [|x xs]; [discriminate|].
   destruct (parse_tag' (pf fx) 0 (S (length (x :: xs))) (x :: xs)) as [[t r]| | |]; try discriminate.
-  destruct t as [|c id tags]; [discriminate|]. destruct (id =? 16); [|discriminate].
+  destruct t as [|c id tags]; [discriminate|]. destruct ((id =? 16) && _); [|discriminate].
   destruct (envelope' fx tags) as [[[mid' op'] cs']| |] eqn:Ee; try discriminate. intros H. injection H as <- _ _ _.
+  assert (R : forall v, idchk (fix38 fx) v = true -> as_i32 (parse_uint v) <= 2147483647).
+  { intros v E. assert (E0 : id_ok0 v = true) by (unfold idchk, id_ok in E; destruct (fix38 fx); [destruct v; [discriminate|exact E]|exact E]).
+    unfold id_ok0 in E0. apply andb_prop in E0 as [_ E0]. apply N.leb_le in E0. unfold as_i32. rewrite N.mod_small; [exact E0|].
+    revert E0. generalize (parse_uint v). intros n Hn. apply N.le_lt_trans with 2147483647; [exact Hn|reflexivity]. }
   revert Ee. unfold envelope', oops. rewrite F. cbn [andb].
   repeat match goal with
-  | |- context [id_ok ?v] => let E := fresh "E" in destruct (id_ok v) eqn:E; cbn [negb]
+  | |- context [idchk ?f ?v] => let E := fresh "E" in destruct (idchk f v) eqn:E; cbn [negb]
   | |- context [match ?x with _ => _ end] => destruct x end; intros H; try discriminate H; injection H as <- _ _.
-  all: match goal with E : id_ok ?v = true |- _ => unfold id_ok in E; apply andb_prop in E as [_ E]; apply N.leb_le in E; unfold as_i32; rewrite N.mod_small; [exact E|] end.
-  all: match goal with E : parse_uint _ <= _ |- _ => revert E; generalize (parse_uint v); intros n Hn; apply N.le_lt_trans with 2147483647; [exact Hn|reflexivity] end.
+  all: match goal with E : idchk _ ?v = true |- _ => exact (R v E) end.
 Qed.
 Lemma c01_refuted_F30 : decode_inner' (repaired_d_but30 100) (b [48; 16; 2; 5; 1; 0; 0; 0; 1; 97; 7; 10; 1; 0; 4; 0; 4; 0]) = DFrame 1 (C Application 1 [P Universal 10 [x00]; P Universal 4 []; P Universal 4 []]) [] []
   /\ decode_inner' (repaired_d 100) (b [48; 16; 2; 5; 1; 0; 0; 0; 1; 97; 7; 10; 1; 0; 4; 0; 4; 0]) = DErr.
 Proof. vm_compute. split; reflexivity. Qed.
+
+(* ---------- F38: what is delivered is an envelope ---------- *)
+Definition ctx_is (n : N) (t : tree) : bool := class_eqb (tree_class t) Context && (tree_id t =? n).
+Inductive Envelope : tree -> N * tree * list ctrl -> Prop :=
+| Env_plain ib op : id_ok ib = true -> ctx_is 0 op = false -> ctx_is 10 op = false ->
+    Envelope (C Universal 16 [P Universal 2 ib; op]) (as_i32 (parse_uint ib), op, [])
+| Env_ctrls ib op cts cs : id_ok ib = true -> parse_controls' true cts = COk cs ->
+    Envelope (C Universal 16 [P Universal 2 ib; op; C Context 0 cts]) (as_i32 (parse_uint ib), op, cs)
+| Env_ad ib op x : id_ok ib = true -> ctx_is 10 x = true ->
+    Envelope (C Universal 16 [P Universal 2 ib; op; x]) (as_i32 (parse_uint ib), op, []).
+
+Lemma class_eqb_eq a b : class_eqb a b = true -> a = b.
+Proof. destruct a, b; vm_compute; congruence. Qed.
+
+Lemma envelope_sound fx tags v : fix4 fx = true -> fix30 fx = true -> fix38 fx = true ->
+  envelope' fx tags = COk v -> Envelope (C Universal 16 tags) v.
+Proof.
+  intros F4 F30 F38. set (l := rev tags). replace tags with (rev l) by apply rev_involutive. unfold envelope'. rewrite rev_involutive. clearbody l. clear tags.
+  unfold oops. rewrite F4, F30, F38. cbn [andb idchk].
+  destruct l as [|last before]; [destruct (fix2 fx); discriminate|]. cbv zeta.
+  fold (ctx_is 0 last). fold (ctx_is 10 last).
+  destruct (ctx_is 0 last) eqn:E0; [|destruct (ctx_is 10 last) eqn:E10].
+  - destruct last as [|c i cts]; [discriminate|]. unfold ctx_is in E0. cbn in E0. apply andb_prop in E0 as [Ec Ei]. apply class_eqb_eq in Ec. apply N.eqb_eq in Ei. subst c i.
+    destruct before as [|op before']; [destruct (fix2 fx); discriminate|].
+    destruct (parse_controls' true cts) as [cs| |] eqn:Ecs; try discriminate.
+    destruct before' as [|[[] id ib|] more]; try (destruct (fix2 fx); discriminate).
+    destruct (N.eqb_spec id 2) as [->|]; [|destruct (fix2 fx); discriminate].
+    destruct (id_ok ib) eqn:Eid; [|discriminate]. cbn [negb]. destruct more; [|discriminate]. cbn [is_nil negb]. intros [= <-].
+    cbn [rev app]. now constructor.
+  - destruct before as [|op before']; [destruct (fix2 fx); discriminate|].
+    destruct before' as [|[[] id ib|] more]; try (destruct (fix2 fx); discriminate).
+    destruct (N.eqb_spec id 2) as [->|]; [|destruct (fix2 fx); discriminate].
+    destruct (id_ok ib) eqn:Eid; [|discriminate]. cbn [negb]. destruct more; [|discriminate]. cbn [is_nil negb]. intros [= <-].
+    cbn [rev app]. now apply Env_ad.
+  - destruct before as [|[[] id ib|] more]; try (destruct (fix2 fx); discriminate).
+    destruct (N.eqb_spec id 2) as [->|]; [|destruct (fix2 fx); discriminate].
+    destruct (id_ok ib) eqn:Eid; [|discriminate]. cbn [negb]. destruct more; [|discriminate]. cbn [is_nil negb]. intros [= <-].
+    cbn [rev app]. now apply Env_plain.
+Qed.
+
+(* C11, the direction the completeness theorems of FrameFixedSpec leave open: whatever the repaired decoder delivers is an LDAPMessage
+   envelope - a universal SEQUENCE of the message id (an INTEGER with content octets, in 0 .. 2^31-1), the protocol op, and then nothing,
+   or the controls, or the stray [10] element of Active Directory's Notice of Disconnection, which the code tolerates on purpose *)
+Theorem c11_delivered_is_envelope m buf mid op cs rest : decode_inner' (repaired_d m) buf = DFrame mid op cs rest ->
+  exists env, parse_tag' (lim true m) 0 (S (length buf)) buf = POk (env, rest) /\ Envelope env (mid, op, cs).
+Proof.
+  unfold decode_inner'. destruct buf as [|x xs]; [discriminate|]. cbn [pf repaired_d].
+  destruct (parse_tag' (lim true m) 0 (S (length (x :: xs))) (x :: xs)) as [[t r]| | |]; try discriminate.
+  destruct t as [|c id tags]; [discriminate|]. cbn [fix38 negb orb]. destruct (N.eqb_spec id 16) as [->|]; [|discriminate].
+  destruct (class_eqb c Universal) eqn:Ec; [|discriminate]. apply class_eqb_eq in Ec. subst c. cbn [andb].
+  destruct (envelope' (repaired_d m) tags) as [[[mid' op'] cs']| |] eqn:Ee; try discriminate. intros [= <- <- <- <-].
+  exists (C Universal 16 tags). split; [reflexivity|]. now apply (envelope_sound (repaired_d m)).
+Qed.
+(* ... so input whose first element is anything else ends the stream with a decoding error (ConnWire: and with it the connection) *)
+Corollary c11_not_envelope_is_error m buf env rest : parse_tag' (lim true m) 0 (S (length buf)) buf = POk (env, rest) ->
+  (forall v, ~ Envelope env v) -> decode_inner' (repaired_d m) buf = DErr.
+Proof.
+  intros Hp Hn. destruct (decode_inner' (repaired_d m) buf) as [| | |mid op cs r] eqn:E; try reflexivity.
+  - exfalso. unfold decode_inner' in E. destruct buf; [discriminate|]. cbn [pf repaired_d] in E. rewrite Hp in E. destruct env; [discriminate|].
+    destruct ((_ =? 16) && _); [|discriminate]. destruct (envelope' _ _) as [[[? ?] ?]| |]; discriminate.
+  - exfalso. now apply (c11_decode_no_panic (repaired_d m) buf).
+  - destruct (c11_delivered_is_envelope m buf mid op cs r E) as (env' & Hp' & He). rewrite Hp in Hp'. injection Hp' as <- _. now elim (Hn _ He).
+Qed.
+(* F38 as found: a BindResponse in an APPLICATION 16 wrapper, one with an OCTET STRING in front of the message id, and one whose message id
+   has no content octets were all delivered (the last as id 0) *)
+Lemma c11_refuted_F38 :
+  let resp := C Application 1 [P Universal 10 [x00]; P Universal 4 []; P Universal 4 []] in
+  decode_inner' (repaired_d_but38 100) (b [112; 12; 2; 1; 1; 97; 7; 10; 1; 0; 4; 0; 4; 0]) = DFrame 1 resp [] [] /\
+  decode_inner' (repaired_d_but38 100) (b [48; 14; 4; 0; 2; 1; 1; 97; 7; 10; 1; 0; 4; 0; 4; 0]) = DFrame 1 resp [] [] /\
+  decode_inner' (repaired_d_but38 100) (b [48; 11; 2; 0; 97; 7; 10; 1; 0; 4; 0; 4; 0]) = DFrame 0 resp [] [] /\
+  decode_inner' (repaired_d 100) (b [112; 12; 2; 1; 1; 97; 7; 10; 1; 0; 4; 0; 4; 0]) = DErr /\
+  decode_inner' (repaired_d 100) (b [48; 14; 4; 0; 2; 1; 1; 97; 7; 10; 1; 0; 4; 0; 4; 0]) = DErr /\
+  decode_inner' (repaired_d 100) (b [48; 11; 2; 0; 97; 7; 10; 1; 0; 4; 0; 4; 0]) = DErr /\
+  decode_inner' (repaired_d 100) (b [48; 12; 2; 1; 1; 97; 7; 10; 1; 0; 4; 0; 4; 0]) = DFrame 1 resp [] [].
+Proof. vm_compute. repeat split. Qed.
+Print Assumptions c11_delivered_is_envelope.
 
 (* a proper prefix of an encoding is Incomplete for the repaired parser as well *)
 Theorem proper_prefix_incomplete' fx d t bs p q f : BerEnc t bs -> p ++ q = bs -> q <> [] -> parse_tag' fx d (S f) p = PInc.
